@@ -262,6 +262,8 @@ macro_rules! builder {
           })
           .box_it()
         }
+        // b = 9: the entry point that starts from `Default::default()` (= I(0) for the harness values)
+        "scan" if b == 9 => src(ast.s1).scan(move |acc: Val, v| binf(a, acc, v)).box_it(),
         "scan" => src(ast.s1).scan_initial(ast.v.clone(), move |acc, v| binf(a, acc, v)).box_it(),
         "skip" => src(ast.s1).skip(a as usize).box_it(),
         "skip_while" => src(ast.s1).skip_while(move |v| pred(a, v)).box_it(),
@@ -275,6 +277,7 @@ macro_rules! builder {
         "dukc" => src(ast.s1).distinct_until_key_changed(move |v: &Val| keyf(a, v)).box_it(),
         "pairwise" => src(ast.s1).pairwise().map(|(x, y)| pair(x, y)).box_it(),
         "buffer_count" => src(ast.s1).buffer_with_count(a as usize).map(Val::L).box_it(),
+        "collect" if !ast.l.is_empty() => src(ast.s1).collect_into(ast.vals()).map(Val::L).box_it(),
         "collect" => src(ast.s1).collect::<Vec<Val>>().map(Val::L).box_it(),
         "take" => src(ast.s1).take(a as usize).box_it(),
         "take_while" => {
@@ -293,6 +296,7 @@ macro_rules! builder {
         "element_at" => src(ast.s1).element_at(a as usize).box_it(),
         "ignore_elements" => src(ast.s1).ignore_elements().box_it(),
         "all" => src(ast.s1).all(move |v| pred(a, &v)).map(Val::B).box_it(),
+        "reduce_initial" if b == 9 => src(ast.s1).reduce(move |acc: Val, v| binf(a, acc, v)).box_it(),
         "reduce_initial" => src(ast.s1)
           .reduce_initial(ast.v.clone(), move |acc, v| binf(a, acc, v))
           .box_it(),
